@@ -135,3 +135,99 @@ def known_signature(k, engine, case, mo, spec, im):
 
 def bgpend_engine():
     return {"name": "bgpend", "gen": gen, "corpus": corpus, "nontrivial": nontrivial, "classify": classify, "shards": 12}
+
+
+# ---- C15 profile: the unit's own counters (src/units/bgp_tcp_in/status_reporter.rs, metrics.rs) after the session. Op `M` makes both
+# sides print `met:lost=<n>,disc=<n>`: the oracle from BgpSessionModel.bsm_process, the harness from the Prometheus text the real
+# BgpTcpInMetrics source renders. No earlier connection of the same peer is live (dup = 0), so the class of the recorded window finding
+# of C02 / C07 is empty here and model = spec.
+C15_ALPHABET = ["t", "g", "e 0", "n", "u 3 1 -", "k", "l 0", "l 1", "x", "T", "r unit", "r same", "r peer", "r gone", "r other"]
+C15_EXITS = ["l 0", "l 0", "l 1", "x", "e 0", "e 1", "r unit", "r gone", ""]
+C15_FILLER = ["t", "g", "k", "T", "T", "r same", "r peer", "r other"]
+
+
+def sweep_over(alphabet, length):
+    if length == 0:
+        yield []
+        return
+    for head in sweep_over(alphabet, length - 1):
+        for a in alphabet:
+            yield head + [a]
+
+
+def c15_random_case(rng):
+    ops = [f"S {rng.choice([7, 3, 41])} 0 {1 if rng.chance(50) else 0}"]
+    if rng.chance(20):
+        for _ in range(rng.range(1, 9)):
+            ops.append(rng.choice(C15_ALPHABET))
+        return ";".join(ops + ["M"])
+    for _ in range(rng.range(0, 3)):
+        ops.append(rng.choice(C15_FILLER))
+    if rng.chance(85):
+        ops.append("n")
+    for _ in range(rng.range(0, 6)):
+        ops.append("u " + routes(rng, rng.range(1, 9)) if rng.chance(35) else rng.choice(C15_FILLER))
+    ex = rng.choice(C15_EXITS)
+    if ex:
+        ops.append(ex)
+    for _ in range(rng.range(0, 2)):      # never looked at, never counted
+        ops.append(rng.choice(["l 0", "l 1", "T", "r gone", "t"]))
+    return ";".join(ops + ["M"])
+
+
+def gen_c15(rng, tier):
+    quick = tier == "quick"
+    for n in range(0, 3 if quick else 4):
+        for s in sweep_over(C15_ALPHABET, n):
+            yield ";".join(["S 7 0 1"] + s + ["M"])
+    for _ in range(800 if quick else 20000):
+        yield c15_random_case(rng)
+
+
+def corpus_c15():
+    est = "S 7 0 1;g;n;u 3 1,2 -"
+    return [
+        # seeded change C15-c2: peer_connection_lost(None) returned before the counter (None = rotonda's own PDU writer task noticed the
+        # dead peer first)
+        est + ";l 0;M", "S 7 0 1;l 0;M", est + ";T;t;l 0;M",
+        est + ";l 1;M", est + ";x;M", est + ";e 0;M",
+        # disconnects: Terminate (the loop goes on), this peer removed from the configuration; a changed main configuration or peer
+        # entry sends Disconnect but counts nothing
+        est + ";T;M", est + ";T;T;r gone;l 0;M", est + ";r gone;M", est + ";r unit;M", est + ";r peer;r same;r other;l 1;M",
+        # what comes after the end is neither handled nor counted
+        est + ";l 1;l 0;T;r gone;M",
+    ]
+
+
+def nontrivial_c15(case, out):
+    import re
+    m = re.search(r"met:lost=(\d+),disc=(\d+)", out)
+    return bool(m) and (int(m.group(1)) + int(m.group(2)) >= 1)
+
+
+def classify_c15(case, out):
+    import re
+    ks = classify(case, out)
+    m = re.search(r"met:lost=(\d+),disc=(\d+)", out)
+    if m:
+        ks.append("lost-counted" if int(m.group(1)) else "not-lost")
+        if int(m.group(2)):
+            ks.append("disconnects-counted" if int(m.group(2)) == 1 else "disconnects-counted-twice-or-more")
+        evs = events_of(case)
+        used = next((int(x[5:]) for x in out.split() if x.startswith("used:")), 0)
+        if 0 < used <= len(evs) and evs[used - 1] == "l 0":
+            ks.append("lost-without-socket-address")
+    return ks
+
+
+def bgpend_c15_engine():
+    return {"name": "bgpend", "gen": gen_c15, "corpus": corpus_c15, "nontrivial": nontrivial_c15, "classify": classify_c15, "shards": 12}
+
+
+BGPEND_C15_TRUSTED = ("Rust harness engine `bgpend` (see C02/C07), op M: the real bgp_tcp_in Processor::process over a scripted BgpSession, reporting "
+                      "through a child (add_child) of a BgpTcpInStatusReporter over BgpTcpInMetrics::new(&gate) as the unit builds them; the counters are "
+                      "read from the text the real metrics::Source renders into a Prometheus Target, through the independent reader engines/promtext.rs")
+BGPEND_C15_RULE = ("bgp-tcp-in unit counters: every script of length <= 2 (thorough: 3) over the 15 events the select! loop of Processor::process can see "
+                   "(ConnectionLost with and without a socket address, Terminate, every kind of reconfiguration) plus random sessions that negotiate, take "
+                   "routes, are told to shut down / reconfigured and end by every exit, with events behind the end; the rendered counters are read after "
+                   "process() returned; non-trivial = a counter that moved")
